@@ -25,6 +25,18 @@ def family():
            ('bind', 'x', 'd', ('bind', 'xx', 'empty', ('true',))), ('forall', 'x', 'd', ('forall', 'xx', 'empty', ('false',)))]
     return fs
 
+def repeated_domain_family():
+    """the same (domain label, variable) used twice under different enclosing scopes, in both evaluation orders"""
+    out = []
+    inner = lambda: ('exists', 'xx', 'f', ('jump', 'x', XX))
+    inner2 = lambda: ('forall', 'xx', 'f', ('or', ('jump', 'xx', ('EX', X)), ('not', XX)))
+    for mk in (inner, inner2):
+        for d1, d2 in [('d', None), (None, 'd'), ('d', 'e'), ('e', 'd'), ('d', 'f'), ('f', None)]:
+            a = ('exists', 'x', d1, mk()); b = ('exists', 'x', d2, mk())
+            out += [('or', a, b), ('and', ('not', a), b)]
+        out.append(('bind', 'x', 'd', ('and', mk(), ('EX', ('bind', 'x', None, mk())))) if False else ('and', ('bind', 'x', 'd', mk()), ('bind', 'x', None, mk())))
+    return out
+
 def heavy(f):
     """nested fixed points over a state variable inside a restricted scope: minutes per query with a colour bit"""
     return S.quant_depth(f) >= 1 and bool(S.labels(f)[1]) and bool(S.ops_used(f) & {'AG', 'EF', 'EU', 'AU', 'AF', 'EG'})
@@ -56,6 +68,9 @@ def run(chk):
     # nested restricted domains with a colour bit: the two domains may be non-empty for different colours only
     for f in [('bind', 'x', 'd', ('bind', 'xx', 'e', ('or', ('EX', XX), ('AX', X)))), ('exists', 'x', 'd', ('forall', 'xx', 'e', ('jump', 'x', ('EX', XX)))), ('forall', 'x', 'd', ('exists', 'xx', 'e', ('and', XX, ('EX', X))))]:
         tasks.append({'n': 2, 'k': 2, 'c': 1, 'entry': 'multi_ext_dirty', 'phis': [f], 'check_unit': True, 'timeout_ms': 120000})
+    rep = repeated_domain_family()
+    for f in rep[::1 if thorough else 3]:
+        tasks.append({'n': 2, 'k': 2, 'c': 0, 'entry': 'multi_ext', 'phis': [f], 'timeout_ms': 300000 if thorough else 60000})
     for (l, r) in readme_pairs():
         tasks.append({'n': 2, 'k': S.quant_depth(l), 'c': 0, 'entry': 'multi_ext_dirty', 'phis': [l, r], 'equal_pairs': [(0, 1)]})
     for (l, r) in readme_pairs()[:9 if thorough else 3]:
@@ -64,6 +79,6 @@ def run(chk):
     rnd = [G.random_formula(chk.rng, 3, ['v0', 'v1'], wild=('w', 'p'), doms=('d', 'e', 'f')) for _ in range(120 if thorough else 20)]
     rnd = [f for f in rnd if S.labels(f)[0] | S.labels(f)[1]]
     pairs = [('iff', l, r) for (l, r) in readme_pairs()]
-    UC.run_family(chk, 'C02', [(['U2', 'C2'] + (['M2'] if thorough else []), fs + rnd)], entries=('ext_dirty', 'ext', 'ext_multi_dirty'), check_unit=True)
+    UC.run_family(chk, 'C02', [(['U2', 'C2'] + (['M2'] if thorough else []), fs + rnd + rep)], entries=('ext_dirty', 'ext', 'ext_multi_dirty'), check_unit=True)
     # README equivalences end to end: the iff-formula must evaluate to the unit set
     UC.run_family(chk, 'C02', [(['U2', 'C2'], pairs)], entries=('ext_dirty',))
